@@ -141,10 +141,11 @@ func checkC17(c *Ctx, r *Report) {
 			bad = "no single reduce path"
 		} else {
 			var seq []string
-			var trArgs, rfArg, gotoTerm, pushedState string
+			var trArgs, rfArg, gotoTerm, pushedState, pushedLHS string
 			for _, e := range ps[0].Effects {
 				if e.Kind == "store" && strings.HasSuffix(e.LHS.String(), ".Yystate") {
 					pushedState = e.Term.String()
+					pushedLHS = e.LHS.String()
 				}
 				if e.Kind != "call" {
 					continue
@@ -177,7 +178,9 @@ func checkC17(c *Ctx, r *Report) {
 				bad = "the reduce branch performs " + strings.Join(seq, ",") + ", required ReduceFunc, goto lookup, TraceReduce, push"
 			} else {
 				want := rfArg + " | " + gotoTerm + " | main.TraceTranslate(" + d.aTerm.Args[len(d.aTerm.Args)-1].String() + ")"
-				if trArgs != want {
+				// the state may be reported from the field it was just stored into (`e.Yystate = goto; TraceReduce(r, e.Yystate, …)`)
+				alt := rfArg + " | " + pushedLHS + " | main.TraceTranslate(" + d.aTerm.Args[len(d.aTerm.Args)-1].String() + ")"
+				if trArgs != want && !(pushedLHS != "" && pushedState == gotoTerm && trArgs == alt) {
 					bad = "TraceReduce receives (" + trArgs + "), required the rule index given to ReduceFunc, the goto state and the lookahead's name (" + want + ")"
 				}
 				if pushedState != gotoTerm {
